@@ -167,10 +167,9 @@ def run(ctx):
                        "omitted sys transposes the second subsystem" if t == ("list", ("c", 1)) else f"default sys {show(t)}", n)
     for p in ("sys", "dim"):
         r_live(ctx, pt, p)
-    r_effect_free(ctx, pt, ["rho", "sys"])
-    es = [e for e in effects_on_params(m, pt, ["dim"])]
-    if es:
-        ctx.notes.append(f"observation (not an obligation of C03): partial_transpose writes into the caller's `dim` array: {es[0].text}")
+    # `dim` included: the swapped row/column dimensions written into the caller's ndarray made a second identical call
+    # raise InvalidDim (or, for dimension tables with equal totals, silently use other dimensions) -- F47
+    r_effect_free(ctx, pt, ["rho", "sys", "dim"])
 
     # ---- realignment ---------------------------------------------------------------------------
     ra = m.func("realignment.realignment")
